@@ -131,6 +131,29 @@ def panic_rule(repo, mir, reach, res, rule="PANIC"):
         else:
             keep.append(i)
     inv = keep
+    # `v.len() - 1` right after `v.push(..)`: the length is at least 1
+    keep = []
+    for i in inv:
+        why = None
+        if i["kind"] == "assert:overflow:Sub":
+            f = repo.fn(i["owner"]) or repo.fn(i["fn"])
+            if f is not None:
+                pm = A.parent_map(f.body)
+                for b in A.walk(f.body):
+                    if b["k"] == "Binary" and b["op"] == "-" and b["l"] == i["line"] and b["right"].get("k") == "Lit" and str(b["right"].get("v")) == "1" and b["left"].get("k") == "MethodCall" and b["left"]["method"] == "len":
+                        recv = "".join(repo.text(f.file, b["left"]["recv"]).split())
+                        st = A.stmt_of(b, pm)
+                        blk = pm.get(id(st), (None,))[0] if st is not None else None
+                        if blk is not None and blk.get("k") == "Block":
+                            idx = next((j for j, s_ in enumerate(blk["stmts"]) if s_ is st), None)
+                            prev = blk["stmts"][idx - 1] if idx else None
+                            if prev is not None and prev.get("k") == "ExprStmt" and prev["expr"].get("k") == "MethodCall" and prev["expr"]["method"] == "push" and "".join(repo.text(f.file, prev["expr"]["recv"]).split()) == recv:
+                                why = f"`{recv}.len() - 1` directly after `{recv}.push(..)`: the length is at least 1"
+        if why:
+            res.ok(rule, f"{rule}:{i['owner']}|sub|after-push", why, f"{i['file']}:{i['line']}")
+        else:
+            keep.append(i)
+    inv = keep
     # additions on u32/usize are discharged as a class (ARITH rule below), everything else row by row
     tabled = [i for i in inv if not i.get("mech")]
     groups = collections.Counter(group_key(i) for i in tabled)
@@ -145,7 +168,16 @@ def panic_rule(repo, mir, reach, res, rule="PANIC"):
     # code motion: a site (or some of the sites of a row) that left function f and shows up with the same signature
     # (kind, callee, producer, macro) in another function of the same module was moved, not added.  Pool the surplus / deficit per
     # (module, signature) and let a surplus be paid from a deficit.
+    def access_class(k):
+        if k[1] in ("index", "assert:bounds"):
+            return "access"
+        if k[1] == "unwrap" and re.search(r"slice::(first|last|get)\b|::(first|last)$", k[3] or ""):
+            return "access"
+        return None
+
     def sig(k):
+        if access_class(k):
+            return (k[0].split("::")[0], "access", "", "", "access")
         return (k[0].split("::")[0], k[1], k[2], k[3], k[4])
 
     deficit = collections.Counter()
@@ -169,6 +201,22 @@ def panic_rule(repo, mir, reach, res, rule="PANIC"):
                 classes[r["class"]] += r["count"]
                 res.ok(rule, key_str(k) + ":tabled", f"{r['count']}x {r['class']}: {r['why']}", loc)
             continue
+        # the same access written another way: `v[i]` on a Vec (an index call), `s[i]` on a slice (a bounds assert) and
+        # `v.first()/.last()/.get(i)` + unwrap are one class; a surplus of that class is paid by a deficit of that class in the module.
+        # And an `unwrap()` on what a local function returned that moved INTO that function as an index (lookup returns the element
+        # instead of an Option) is paid by the vanished unwraps.
+        if surplus > 0 and access_class(k) is not None:
+            mod = k[0].split("::")[0]
+            avail = sum(d for s2, d in deficit.items() if s2[0] == mod and d > 0 and (s2[-1] == "access" or (s2[1] == "unwrap" and k[0] in s2[3])))
+            if avail >= surplus:
+                need = surplus
+                for s2 in list(deficit):
+                    if need and s2[0] == mod and deficit[s2] > 0 and (s2[-1] == "access" or (s2[1] == "unwrap" and k[0] in s2[3])):
+                        take = min(need, deficit[s2])
+                        deficit[s2] -= take
+                        need -= take
+                res.ok(rule, key_str(k), f"{surplus} element access(es) in {k[0]} replace as many confirmed accesses of the same kind that are gone from this module (index call / slice bounds check / first().unwrap() are one class): rewritten, not added", loc)
+                continue
         if r is None:
             res.bad(rule, key_str(k), f"panic-capable site with no row in tables/panic_sites.toml: {k[1]} {k[2]} in {k[0]}" + (f" (value produced by {k[3]})" if k[3] else "") + f" at {where[k]}", loc)
             continue
